@@ -39,17 +39,19 @@ def pair(spec):
         # projected gradient at x0 vanishes)
         return {"skip": True, "spec": spec, "why": f"scaler returned {s}"}
     log_a = []
+    fd = spec.get("jac", "callable") != "callable"
     for e in obs.events:
-        if e["e"] == "EvalF" and not e["exc"]:
-            log_a.append(("f", obs.arr[e["pt"]]))
-        elif e["e"] == "EvalG" and not e["exc"]:
+        if e["e"] in (("EvalF", "EvalS") if fd else ("EvalF",)) and not e["exc"]:
+            log_a.append(("f", obs.arr[e["pt"]]))       # in finite-difference modes every user call is an objective call
+        elif e["e"] == "EvalG" and not e["exc"] and not fd:
             log_a.append(("g", obs.arr[e["pt"]]))
     lb = equiv.EvalLog(p.fun, p.grad, fscale=s)
     kw = dict(spec["kwargs"])
     ft = None
     if obs._ftarget_val is not None:
         ft = obs._ftarget_val * s
-    rb = lbfgsb.minimize_lbfgsb(x0=p.x0, fun=lb.fun, jac=lb.grad, bounds=p.bounds, ftarget=ft,
+    jm = spec.get("jac", "callable")
+    rb = lbfgsb.minimize_lbfgsb(x0=p.x0, fun=lb.fun, jac=lb.grad if not fd else (None if jm == "none" else jm), bounds=p.bounds, ftarget=ft,
                                 gtol=spec.get("gtol", ["float", 1e-5])[1], **kw)
     fields = equiv.result_fields(ra, rb, exact=True)
     fields["scaler_invoked_once"] = obs.calls["scaler"] == 1
@@ -112,6 +114,15 @@ def specs(ctx):
         s["start"] = "interior"
         if "ftarget" in s:
             s["ftarget"] = ["float", s["ftarget"][1]]
+        out.append(s)
+    # finite-difference gradient modes: with a power of two as factor the differences of s*f are s times the differences
+    # of f bit-for-bit, so the equivalence stays exact
+    for i in range(ctx.pick(60, 600)):
+        s = corpus.rand_spec(rng, problems.CONVEX + ["rosenbrock", "qpcos"], nmax=6, allow_cb=False, allow_gcall=False,
+                             allow_target=False, small_budgets=(i % 2 == 0), jacs=("none", "2-point", "3-point"))
+        s["kwargs"]["maxiter"] = min(s["kwargs"].get("maxiter", 20), 20)
+        s["scaler"] = float(rng.choice([0.25, 4.0, 64.0, 2.0 ** -10]))
+        s["start"] = "interior"
         out.append(s)
     # the target already met at the start point (the run returns before any gradient is computed)
     for i in range(ctx.pick(20, 200)):
